@@ -670,6 +670,7 @@ def gen_cases(ctx, cat):
                     del lines[rng.choice(idx)]
                 else:
                     idx = [i for i, l in enumerate(lines) if l.split()[:1] == ['TYPE']]
+                    idx = idx[:-1]      # not the image block: whether it is read at all is finding F-C20-1 (repaired)
                     if idx:
                         lines[rng.choice(idx)] = '  TYPE TOROIDAL'
             elif v == 5:     # unsupported aperture kinds
